@@ -141,6 +141,8 @@ def replay(rp):
         return wk.warm_replay(rp['input'])
     if 'copied_simulator' in rp.get('input', {}):
         return wk.copied_replay(rp['input'], oracle)
+    if 'pre_extra' in rp.get('input', {}):
+        return wk.pre_extra_replay(rp['input'])
     if 'dataset_selection' in rp.get('input', {}):
         k, how = wk.from_description(rp['input']), rp['input']['dataset_selection']
         try:
